@@ -136,9 +136,14 @@ impl ZoneStore {
             }
         }
 
+        #[cfg(iroh_verif)]
+        iroh_base::verif::pause_async("dnssrv.resolve.after_cache_miss").await;
+
         // Check persistent store
         if let Some(packet) = self.store.get(pubkey).await? {
             trace!(packet_timestamp = ?packet.timestamp(), "store hit");
+            #[cfg(iroh_verif)]
+            iroh_base::verif::pause_async("dnssrv.resolve.after_store_read").await;
             let mut cache = self.cache.lock().await;
             let result = cache.insert_and_resolve(&packet, name, record_type);
             return match result {
@@ -201,6 +206,8 @@ impl ZoneStore {
     ) -> Result<bool> {
         let pubkey = PublicKeyBytes::from_signed_packet(&signed_packet);
         if self.store.upsert(signed_packet).await? {
+            #[cfg(iroh_verif)]
+            iroh_base::verif::pause_async("dnssrv.insert.after_upsert").await;
             self.metrics.pkarr_publish_update.inc();
             self.cache.lock().await.remove(&pubkey);
             Ok(true)
